@@ -9,7 +9,9 @@ spec/C08/KeyFlow.tla   R-spec 2: the life of a key (export / parse through every
       action properties (only the diagonal verifies, tampering is forever, parse succeeds iff the password matches ...).
  GEN  KeyFlowGen: behaviours of the two flows (exhaustive to a small depth, -simulate for long ones; menu "sweep" = the shape
       Sign - flip one bit - Verify, whose bit position the harness sweeps over every bit of signature / message; menu "pw" =
-      Export with a password - Parse for every password class of the spec x everything that may be offered to the container).
+      Export with a password - Parse for every password class of the spec x everything that may be offered to the container;
+      menu "src" = Sign from a private-key FILE (library signature provider / nxpcrypto signature create) for every parameter
+      set x every way the password reaches the signer: file open, argument, provider configuration, typed at the prompt).
  EXEC this module: builds integers / picks pool keys with exactly the requested profile, runs SPSDK (library and the
       `nxpcrypto` command line) and the independent base (`cryptography` called directly with the standard parameters;
       pure-Python verification and key construction in lib/refpk.py) in both directions and LOGS facts.  It never compares
@@ -400,26 +402,92 @@ def cli_rm(*paths):
 SIGMEMO = {}
 
 
-def cli_sign(key, P, msg, r_):
-    """nxpcrypto signature create (-> InteractivePlainFileSP -> SignatureProvider.get_signature)."""
+class Typist:
+    """The user at the passphrase prompt: while active, getpass.getpass (what SPSDK's prompt_for_passphrase asks through) answers
+    with the given text and counts how often it was asked.  Patched in THIS (worker) process only, restored on exit."""
+
+    def __init__(self, text):
+        self.text, self.asked, self.saved = text, 0, []
+
+    def _answer(self, prompt=None, stream=None):
+        self.asked += 1
+        return self.text
+
+    def __enter__(self):
+        import getpass
+
+        K = sp()["K"]
+        if getattr(K, "SPSDK_INTERACTIVE_DISABLED", False):
+            raise Machinery("SPSDK_INTERACTIVE_DISABLED is set: the passphrase prompt cannot be exercised")
+        self.saved = [(getpass, "getpass", getpass.getpass)]
+        if callable(getattr(K, "getpass", None)):  # `from getpass import getpass` - never let a real prompt read the terminal
+            self.saved.append((K, "getpass", K.getpass))
+        for mod, name, _ in self.saved:
+            setattr(mod, name, self._answer)
+        return self
+
+    def __exit__(self, *exc):
+        for mod, name, old in self.saved:
+            setattr(mod, name, old)
+        return False
+
+
+def file_sign(key, P, msg, r_, by, src):
+    """A signature made from a private-key FILE.  by "sp": the library's signature provider (get_signature_provider ->
+    InteractivePlainFileSP / PlainFileSP -> SignatureProvider.get_signature); by "cli": `nxpcrypto signature create`.
+    src (KeyFlow.tla, FileSources): "open" = the file is not encrypted; "arg" = password= / --password; "cfg" = inside the provider
+    configuration string (type=file;file_path=..;password=..); "prompt" = nothing is handed over, the signer finds the file encrypted
+    and asks - the Typist types the password.  -> (signature or None, error, facts about the file and the prompt)"""
     S = _c()["S"]
-    enc_key = r_.random() < 0.5
-    prot = S.BestAvailableEncryption(PW.encode("utf-8")) if enc_key else S.NoEncryption()
-    kf = cli_file("pem", key.priv.private_bytes(S.Encoding.PEM, S.PrivateFormat.PKCS8, prot))
-    df, sf = cli_file("bin", msg), cli_file("sig")
-    args = ["signature", "create", "-k", kf, "-i", df, "-o", sf]
-    if enc_key:
-        args += ["-p", PW]
-    if P["hash"] != "default":
-        args += ["-a", P["hash"]]
-    if P["pad"] == "pss":
-        args += ["-pp"]
-    if key.kt == "ecc":
-        args += ["-e", "NXP" if P["enc"] == "raw" else "DER"]
-    ok, _, err = run_cli(args)
-    sig = open(sf, "rb").read() if ok and os.path.exists(sf) else None
-    cli_rm(kf, df, sf)
-    return sig, (None if sig is not None else f"refused:{err}")
+    fmt = r_.choice(["PEM", "DER"])
+    prot = S.BestAvailableEncryption(PW.encode("utf-8")) if src != "open" else S.NoEncryption()
+    blob = key.priv.private_bytes(S.Encoding.PEM if fmt == "PEM" else S.Encoding.DER, S.PrivateFormat.PKCS8, prot)
+    kf = cli_file(fmt.lower(), blob)
+    facts = {"encrypted": is_encrypted(blob, fmt, PW), "prompts": 0, "keyfmt": fmt}
+    cfg = f"type=file;file_path={kf};password={PW}"
+    if any(ch in kf for ch in ";="):
+        raise Machinery(f"scratch path {kf!r} cannot be written into a provider configuration string")
+    pss = P["pad"] == "pss"
+    with Typist(PW) as user:
+        if by == "cli":
+            df, sf = cli_file("bin", msg), cli_file("sig")
+            args = ["signature", "create", "-i", df, "-o", sf] + (["-sp", cfg] if src == "cfg" else ["-k", kf])
+            if src == "arg":
+                args += ["-p", PW]
+            if P["hash"] != "default":
+                args += ["-a", P["hash"]]
+            if pss:
+                args += ["-pp"]
+            if key.kt == "ecc":
+                args += ["-e", "NXP" if P["enc"] == "raw" else "DER"]
+            ok, _, err = run_cli(args)
+            sig = open(sf, "rb").read() if ok and os.path.exists(sf) else None
+            e = None if sig is not None else f"refused:{err}"
+            cli_rm(df, sf)
+        else:
+            from spsdk.crypto.signature_provider import get_signature_provider
+
+            X = sp()
+            kw = {"hash_alg": X["ALG"][P["hash"]], "pss_padding": pss}
+
+            def make():
+                if src == "cfg":
+                    prov = get_signature_provider(sp_cfg=cfg, **kw)
+                else:
+                    prov = get_signature_provider(local_file_key=kf, password=PW if src == "arg" else None, **kw)
+                return prov.get_signature(msg, X["ENC"]["der"]) if P["enc"] == "der" else prov.get_signature(msg)
+
+            sig, e = outcome(make)
+    facts["prompts"] = user.asked
+    cli_rm(kf)
+    return sig, e, facts
+
+
+def classify(key, sig, enc, msg):
+    """Every (hash, padding) of the parameter matrix under which `cryptography` alone accepts the signature for the message."""
+    pads = ("v15", "pss") if key.kt == "rsa" else ("ecdsa",)
+    return [{"hash": h, "pad": p} for h in HASHES for p in pads
+            if indep_verify(key, {"pad": p, "pre": False}, h, sig, enc, msg) == "true"]
 
 
 def cli_verify(key, Q, sig, msg, r_):
@@ -824,10 +892,12 @@ def replay_flow(job):
                 break
             cur, kk = (cur[0], got), "pub"
         elif name == "Sign":
-            P, by = a["P"], a["by"]
+            P, by, src = a["P"], a["by"], a["src"]
             h = eff(P["hash"])
+            ffacts = {"encrypted": False, "prompts": 0}  # parties that hold the key object have no file to open
             if h not in HASHES:
-                ev.append({"a": "Sign", "P": P, "by": by, "ok": False, "sigLen": -1, "rl": 0, "r0": 0, "sl": 0, "s0": 0})
+                ev.append({"a": "Sign", "P": P, "by": by, "src": src, "ok": False, "sigLen": -1, "rl": 0, "r0": 0, "sl": 0, "s0": 0,
+                           "encrypted": False, "prompts": 0, "cls": []})
                 break
             if by == "spsdk":
                 prv = sp_wrap(key.priv, "priv", kt)
@@ -836,20 +906,24 @@ def replay_flow(job):
                     sig, e = outcome(lambda: prv.sign(data, algorithm=ALG[P["hash"]], pss_padding=P["pad"] == "pss", prehashed=P["pre"]))
                 else:
                     sig, e = outcome(lambda: prv.sign(data, algorithm=ALG[P["hash"]], der_format=P["enc"] == "der", prehashed=P["pre"]))
-            elif by == "cli":
-                memo = SIGMEMO.get((key.name, json.dumps(P, sort_keys=True)))
+            elif by in ("cli", "sp"):
+                memo = SIGMEMO.get((key.name, json.dumps(P, sort_keys=True), by, src))
                 if memo is not None:
                     msg, sig, e = bytes.fromhex(memo["msg"]), bytes.fromhex(memo["sig"]) if memo["sig"] is not None else None, memo["e"]
-                    vmsg = msg
+                    vmsg, ffacts = msg, memo["facts"]
                 else:
-                    sig, e = cli_sign(key, P, msg, r_)
+                    sig, e, ffacts = file_sign(key, P, msg, r_, by, src)
             else:
                 sig, e = indep_sign(key, P, h, msg), None
             enc = P["enc"]
-            fact = {"a": "Sign", "P": P, "by": by, "ok": e is None and isinstance(sig, (bytes, bytearray)), "sigLen": -1, "rl": 0, "r0": 0, "sl": 0, "s0": 0}
+            fact = {"a": "Sign", "P": P, "by": by, "src": src, "ok": e is None and isinstance(sig, (bytes, bytearray)), "sigLen": -1,
+                    "rl": 0, "r0": 0, "sl": 0, "s0": 0, "encrypted": ffacts["encrypted"], "prompts": ffacts["prompts"], "cls": []}
+            if ffacts.get("keyfmt"):
+                notes.append(f"key file: {ffacts['keyfmt']}")
             if fact["ok"]:
                 sig = bytes(sig)
                 fact["sigLen"] = len(sig)
+                fact["cls"] = classify(key, sig, enc, msg)  # what has really been made, according to the independent base
                 if kt == "ecc":
                     rs = sig_rs(kt, size, enc, sig)
                     if rs is None or rs[0] < 1 or rs[1] < 1:
@@ -986,7 +1060,22 @@ def flow_key(tr, matched):
         return f"C08/{kts}/to-public/wrong"
     if a == "Sign":
         P = e["P"]
-        return f"C08/{tr['kt']}/sign/by-{e['by']}/{P['hash']}-{P['pad']}-{P['enc']}/ok={e['ok']}"
+        made = "+".join(f"{c['hash']}-{c['pad']}" for c in e["cls"]) or "nothing-of-the-matrix"
+        want = f"{tr['dflt'] if P['hash'] == 'default' else P['hash']}-{P['pad']}"
+        if not e["ok"]:
+            tail = "ok=False"
+        elif made != want:  # the independent base finds another signature than the one asked for
+            if len(e["cls"]) == 1:
+                c, wh = e["cls"][0], want.split("-")[0]
+                tail = (("pad=ok" if c["pad"] == P["pad"] else f"pad={c['pad']}-not-{P['pad']}") + "," +
+                        ("hash=ok" if c["hash"] == wh else f"hash={c['hash']}-not-{wh}"))
+            else:
+                tail = f"made={made}"
+        elif e["src"] == "prompt" and e["prompts"] < 1:
+            tail = "never-asked"
+        else:
+            tail = f"len={e['sigLen']}"
+        return f"C08/{tr['kt']}/sign/by-{e['by']}/pw-{e['src']}/{P['hash']}-{P['pad']}-{P['enc']}/{tail}"
     if a == "Reencode":
         c = (tr["size"] + 7) // 8
         return f"C08/{kts}/reencode/{e['from']}-to-{e['to']}/via-{e['via']}/{derlen_class(c, e['derLen'])}/ok={e['ok']}"
@@ -995,7 +1084,7 @@ def flow_key(tr, matched):
         tam = "+".join(p["what"] for p in ev[:matched] if p["a"] == "Tamper") or "intact"
         P, Q = sign["P"], e["Q"]
         # presentation parameters (pre-hashed, key size) are in the witness, not in the key
-        return (f"C08/{tr['kt']}/verify/signed-by-{sign['by']}:{P['hash']}-{P['pad']}-{P['enc']}/"
+        return (f"C08/{tr['kt']}/verify/signed-by-{sign['by']}/pw-{sign['src']}:{P['hash']}-{P['pad']}-{P['enc']}/"
                 f"verified-by-{e['by']}:{Q['hash']}-{Q['pad']}/{tam}/{e['res']}")
     return f"C08/{kts}/{a}"
 
@@ -1008,9 +1097,9 @@ def check_actions(r, names):
         raise Machinery(f"vacuous actions in KeyFlow: {vac} (coverage {r.coverage})")
 
 
-def gen(flow, depth, simulate=None, sim_depth=None, menu="any", pw="all"):
+def gen(flow, depth, simulate=None, sim_depth=None, menu="any", pw="all", src="all"):
     r = tlc.run("C08", "KeyFlowGen", "KeyFlowGen.cfg", workers=1, deadlock=False,
-                env={"GEN_DEPTH": depth, "GEN_FLOW": flow, "GEN_MENU": menu, "GEN_PW": pw},
+                env={"GEN_DEPTH": depth, "GEN_FLOW": flow, "GEN_MENU": menu, "GEN_PW": pw, "GEN_SRC": src},
                 heap="6g", simulate=simulate, depth=sim_depth, timeout=900)
     behs = r.json_prints()
     if not behs:
@@ -1024,7 +1113,7 @@ def canary(v):
     codec's.  A defect of SPSDK cannot make them unacceptable: whatever the real code does wrong is decided in the main run."""
     key = pool()[("ecc", 256)][0]
     good_flow = replay_flow({"dflt": "sha256", "beh": {"flow": "sig", "kt": "ecc", "size": 256, "kk0": "priv", "hist": [
-        {"a": "Sign", "by": "indep", "P": {"hash": "sha256", "pad": "ecdsa", "pre": False, "enc": "der"}},
+        {"a": "Sign", "by": "indep", "src": "obj", "P": {"hash": "sha256", "pad": "ecdsa", "pre": False, "enc": "der"}},
         {"a": "Reencode", "to": "raw", "via": "indep"},
         {"a": "Verify", "by": "pure", "Q": {"hash": "sha256", "pad": "ecdsa", "pre": True}},
         {"a": "Tamper", "what": "sigbit"},
@@ -1037,6 +1126,11 @@ def canary(v):
         {"a": "ToPublic"},
         {"a": "Export", "fmt": "NXP", "pwd": "none", "el": 0, "by": "indep"}]}, "key": 0, "salt": 0})
     good_flow["id"], good_key["id"] = "good-sig", "good-key"
+    # the same signature as a file signer would report it after the passphrase prompt (the LABELS are edited, nothing is executed:
+    # the trace still does not pass through SPSDK) - must be accepted as well
+    good_prompt = json.loads(json.dumps(good_flow))
+    good_prompt["id"] = "good-prompt"
+    good_prompt["ev"][1].update({"by": "sp", "src": "prompt", "encrypted": True, "prompts": 1})
     bad = []
 
     def corrupt(base, name, fn):
@@ -1048,6 +1142,12 @@ def canary(v):
     corrupt(good_flow, "bad-verdict", lambda t: t["ev"][5].__setitem__("res", "true"))          # verifies after tampering
     corrupt(good_flow, "bad-diag", lambda t: t["ev"][3]["Q"].__setitem__("hash", "sha384"))     # off the diagonal but "true"
     corrupt(good_flow, "bad-len", lambda t: t["ev"][2].__setitem__("outLen", 65))               # raw P-256 signature of 65 bytes
+    corrupt(good_flow, "bad-class", lambda t: t["ev"][1]["cls"][0].__setitem__("hash", "sha384"))   # another signature than the one asked for
+    corrupt(good_flow, "bad-noclass", lambda t: t["ev"][1].__setitem__("cls", []))                  # accepted under nothing
+    corrupt(good_flow, "bad-source", lambda t: t["ev"][1].__setitem__("src", "prompt"))             # a key object has no file to open
+    corrupt(good_prompt, "bad-unasked", lambda t: t["ev"][1].__setitem__("prompts", 0))             # "prompted", but nobody was asked
+    corrupt(good_prompt, "bad-openfile", lambda t: t["ev"][1].__setitem__("encrypted", False))      # "prompted" for a file that is open
+    corrupt(good_prompt, "bad-afterprompt", lambda t: t["ev"][1]["cls"].append({"hash": "sha256", "pad": "v15"}))  # padding lost on the way
     corrupt(good_key, "bad-nopwd", lambda t: t["ev"][2].__setitem__("res", "same"))             # encrypted container opened without password
     corrupt(good_key, "bad-nxp", lambda t: t["ev"][6].__setitem__("len", 65))                   # X||Y of 65 bytes
     corrupt(good_key, "bad-near", lambda t: t["ev"][3].__setitem__("res", "same"))              # opened by a near miss of its password
@@ -1056,7 +1156,7 @@ def canary(v):
     corrupt(good_key, "bad-given", lambda t: t["ev"][4].__setitem__("eq", False))               # another text than the one exported with
     corrupt(good_key, "bad-enc", lambda t: t["ev"][1].__setitem__("encrypted", False))          # password ignored
     corrupt(good_key, "bad-prof", lambda t: t["ev"][0].__setitem__("prof", "x-z2"))             # profile not the key's
-    rej, _ = tlc.tv("C08", "KeyFlowTrace", [good_flow, good_key] + bad)
+    rej, _ = tlc.tv("C08", "KeyFlowTrace", [good_flow, good_prompt, good_key] + bad)
     if set(rej) != {t["id"] for t in bad}:
         raise Machinery(f"canary (flows) failed: rejected {sorted(rej)}")
     # pure codec: one correct observation, the same with one corrupted field each
@@ -1072,7 +1172,7 @@ def canary(v):
     rej, _ = tlc.tv("C08", "KeyCodecTrace", obs)
     if set(rej) != {"bad-derlen", "bad-parse", "bad-prof", "bad-sp"}:
         raise Machinery(f"canary (codec) failed: rejected {sorted(rej)} / observation {g['o']}")
-    v.extra["canary"] = ("2 good flow traces + 1 good codec observation accepted; 11 + 4 single-field corruptions rejected "
+    v.extra["canary"] = ("3 good flow traces + 1 good codec observation accepted; 17 + 4 single-field corruptions rejected "
                          "(good traces made by the independent parties / the reference codec only, none passes through SPSDK)")
     _ = key
 
@@ -1124,13 +1224,13 @@ class Bg:
 def _memo_job(x):
     """One RSA signature made by the command line for (key, parameter set): loading an RSA private key costs up to 0.3 s, so the
     signature is made once and every behaviour that starts with this Sign step replays it (it IS what the CLI produced)."""
-    ki, kt, size, pj = x
+    ki, kt, size, pj, by, src = x
     key = pool()[(kt, size)][ki]
     P = json.loads(pj)
-    r_ = rng(PROP, "climemo", key.name, pj)
+    r_ = rng(PROP, "climemo", key.name, pj, by, src)
     msg = bytes(r_.randrange(256) for _ in range(r_.choice([1, 32, 100, 257])))
-    sig, e = cli_sign(key, P, msg, r_)
-    return (key.name, pj), {"msg": msg.hex(), "sig": sig.hex() if sig is not None else None, "e": e}
+    sig, e, facts = file_sign(key, P, msg, r_, by, src)
+    return (key.name, pj, by, src), {"msg": msg.hex(), "sig": sig.hex() if sig is not None else None, "e": e, "facts": facts}
 
 
 def _exec(job):
@@ -1145,6 +1245,7 @@ def _exec(job):
 
 
 def run(tier):
+    os.environ.pop("SPSDK_INTERACTIVE_DISABLED", None)  # read by spsdk at import: the passphrase prompt is part of the case space
     import_spsdk()
     refpk.selftest()
     v = Verdict(PROP, tier)
@@ -1168,22 +1269,29 @@ def run(tier):
     # ("plain" is left to the lane "pw": all the other classes are its near misses, which would multiply those lanes by five)
     gpw = r.choice(sorted(set(PWS) - {"plain"}))
     v.extra["password_class_of_the_general_lanes"] = gpw
+    # password source of signers that work from a key file: the lane "src" takes EVERY source (file open, password as argument, in the
+    # provider configuration, typed at the prompt) through every parameter set, for both file signers and every key type; the general
+    # signature lanes mix ONE source, drawn from the seed, with everything else they vary
+    gsrc = r.choice(["open", "arg", "cfg", "prompt"])
+    v.extra["password_source_of_the_general_lanes"] = gsrc
     bg.start("pw/2", gen, "key", 2, menu="pw")
     bg.start("key/2", gen, "key", 2, pw=gpw)
-    bg.start("sig/2", gen, "sig", 2)
+    bg.start("src/1", gen, "sig", 1, menu="src")
+    bg.start("sig/2", gen, "sig", 2, src=gsrc)
     bg.start("sig/sweep", gen, "sig", 3, menu="sweep")
     if quick:  # deeper behaviours are drawn by simulation; the thorough tier enumerates them
         bg.start("key/sim3", gen, "key", 3, simulate="num=400", sim_depth=5, pw=gpw)
         bg.start("key/sim", gen, "key", 7, simulate="num=80", sim_depth=9, pw=gpw)
-        bg.start("sig/sim3-mid", gen, "sig", 3, simulate="num=2500", sim_depth=5, menu="mid")
-        bg.start("sig/sim", gen, "sig", 8, simulate="num=400", sim_depth=10)
+        bg.start("sig/sim3-mid", gen, "sig", 3, simulate="num=2500", sim_depth=5, menu="mid", src=gsrc)
+        bg.start("sig/sim", gen, "sig", 8, simulate="num=400", sim_depth=10, src=gsrc)
     else:
         bg.start("pw/3", gen, "key", 3, menu="pw")
         bg.start("key/3", gen, "key", 3, pw=gpw)
         bg.start("key/4", gen, "key", 4, pw=gpw)
         bg.start("key/sim", gen, "key", 7, simulate="num=1500", sim_depth=9, pw=gpw)
-        bg.start("sig/3-mid", gen, "sig", 3, menu="mid")
-        bg.start("sig/3", gen, "sig", 3)
+        bg.start("src/2", gen, "sig", 2, menu="src")
+        bg.start("sig/3-mid", gen, "sig", 3, menu="mid", src=gsrc)
+        bg.start("sig/3", gen, "sig", 3, src=gsrc)
         bg.start("sig/sim", gen, "sig", 8, simulate="num=8000", sim_depth=10)
     canary(v)  # meanwhile, in the main thread (no fork)
     lap("canary")
@@ -1235,6 +1343,8 @@ def run(tier):
         add("key/2", 3, rsa_keys=1, allpub=True, skew=True)
         add("key/sim3", 1, skew=True)
         add("key/sim", 1, skew=True)
+        # exhaustive on every curve and on RSA-2048 (loading an RSA-4096 key from a file costs 0.3 s)
+        add("src/1", 1, thin={256: 1, 384: 1, 521: 1, 2048: 1, 3072: 0.25, 4096: 0.12})
         add("sig/2", 1, sample=5000)
         add("sig/sim3-mid", 1)
         add("sig/sim", 1)
@@ -1245,6 +1355,8 @@ def run(tier):
         add("key/3", 1, rsa_keys=1, allpub=True)
         add("key/4", 1, sample=5000)
         add("key/sim", 1)
+        add("src/1", None)
+        add("src/2", 1, sample=20000)
         add("sig/2", 4, rsa_keys=2)
         add("sig/3-mid", 2, rsa_keys=1)
         add("sig/3", 1, sample=40000)
@@ -1272,11 +1384,12 @@ def run(tier):
     jobs = [j for _, j in fl]
 
     # ================= phase B: the real code executes (processes; no TLC thread alive)
-    need = sorted({(j["key"], j["beh"]["kt"], j["beh"]["size"], json.dumps(j["beh"]["hist"][0]["P"], sort_keys=True))
-                   for j in jobs if j["beh"]["flow"] == "sig" and j["beh"]["kt"] == "rsa" and j["beh"]["hist"][0]["by"] == "cli"})
+    need = sorted({(j["key"], j["beh"]["kt"], j["beh"]["size"], json.dumps(j["beh"]["hist"][0]["P"], sort_keys=True),
+                    j["beh"]["hist"][0]["by"], j["beh"]["hist"][0]["src"])
+                   for j in jobs if j["beh"]["flow"] == "sig" and j["beh"]["kt"] == "rsa" and j["beh"]["hist"][0]["by"] in ("cli", "sp")})
     for k, m in pmap(_memo_job, need, chunksize=1):
         SIGMEMO[k] = m
-    lap(f"command-line RSA signatures made once: {len(need)}")
+    lap(f"RSA signatures from key files (signature provider / command line) made once: {len(need)}")
     out = pmap(_exec, work + fl, chunksize=32)
     obs = out[: len(cases)]
     obs2 = [o for o in out[len(cases): len(work)] if o is not None]
@@ -1360,6 +1473,8 @@ def run(tier):
         t = traces[tid]
         key = flow_key(t, matched)
         e = t["ev"][min(matched, len(t["ev"]) - 1)]
+        if e["a"] == "Sign" and e["encrypted"] != (e["src"] in ("arg", "cfg", "prompt")):
+            raise Machinery(f"the key file written for password source {e['src']!r} is {'' if e['encrypted'] else 'not '}encrypted: {e}")
         v.violation(key, f"{t['x']['key']}: step {matched + 1}/{length} {json.dumps(e)[:300]} {'; '.join(t['x']['notes'])[:300]}",
                     {"lane": "flow", "job": {k: x for k, x in jobs[tid].items() if k != "label"}, "trace": t})
 
@@ -1374,7 +1489,14 @@ def run(tier):
         "in front / at the end - blank, tab, CR, LF, CR LF, no-break space -, white space inside, upper case, composed / decomposed accent, "
         "200 characters and their prefix, one character, one blank) x {PEM, DER} x exporting party x everything that may be offered (the "
         "password, none, an unrelated text, every near miss) x entry point x parsing party, exhaustive (quick tier: exhaustive on "
-        "P-256, every second behaviour on RSA-2048, 8-20 % on the other key types); the other key lanes use one class drawn from the seed; tamper sweep: Sign - flip bit i - Verify for every bit i of the signature / of a 16-byte message "
+        "P-256, every second behaviour on RSA-2048, 8-20 % on the other key types); the other key lanes use one class drawn from the seed; password-source lane: Sign from a private-key FILE "
+        "(PEM or DER, drawn) by the library's signature provider (get_signature_provider -> InteractivePlainFileSP / PlainFileSP -> "
+        "get_signature) and by `nxpcrypto signature create`, for EVERY parameter set (hash incl. default x PKCS#1 v1.5 / PSS resp. raw / DER) x "
+        "EVERY way the password reaches the signer (file open; password as argument; inside the provider configuration string; typed at "
+        "the interactive prompt - getpass patched in the worker process) x every key type, exhaustive in both tiers (thorough: every pool "
+        "key and every second action); every signature of every lane is CLASSIFIED by the independent base (all (hash, padding) pairs of "
+        "the matrix under which cryptography accepts it) and TLC demands exactly the requested pair; the general signature lanes use one "
+        "source drawn from the seed; tamper sweep: Sign - flip bit i - Verify for every bit i of the signature / of a 16-byte message "
         "(thorough) or a stratified sample (quick). A case is non-trivial if it produced at least one event beyond the key binding; "
         "distinct by (profile) resp. (behaviour, concrete key, prescribed bit)"
     )
@@ -1389,6 +1511,9 @@ def run(tier):
         "texts beyond the 1023-byte limit of the OpenSSL backend are outside the domain",
         "the command line receives the password of an encrypted key file through load_secret (a path, $VARIABLE or ~ is expanded, the first line of a file is stripped): "
         "only one ordinary password is handed to `nxpcrypto signature create -p`; white-space / $ / ~ passwords on the command line are not asserted",
+        "the interactive prompt asks ONCE (no retry in the API): the case 'wrong passphrase typed, then the right one' does not exist; a wrong passphrase "
+        "typed at the prompt (refusal, no signature) and SPSDK_INTERACTIVE_DISABLED are not exercised; whether a signer asks although it was "
+        "handed the password is recorded, not judged; pre-hashed input is not offered to the file signers (no documented option)",
         "'does not verify' = anything but True (False or an exception); exception types are recorded, not judged",
         "private keys are PKCS#8 (what SPSDK exports); other containers (SEC1 / PKCS#1 private, OpenSSH) are not part of 'parsing what was exported'",
         "ECDSASignature.parse(DER) is required to return the curve of the signature although DER does not carry it (as its API promises); failures are keyed by the I-spec's prediction",
